@@ -325,6 +325,34 @@ fn get_range(thread_index: usize, num_threads: usize, file_size: usize) -> Range
     ((thread_index * file_size) / num_threads)..(((thread_index + 1) * file_size) / num_threads)
 }
 
+/// verification hooks: the two private functions of this file that the harness of C02/C06
+/// otherwise has to re-implement
+#[cfg(brotli_verif)]
+pub mod verif_hooks {
+    use super::*;
+    /// `get_range` as `CompressMulti` / `compress_part` use it
+    pub fn get_range(thread_index: usize, num_threads: usize, file_size: usize) -> Range<usize> {
+        super::get_range(thread_index, num_threads, file_size)
+    }
+    /// one job exactly as a spawner runs it; the job's bytes (`Ok`) or its error
+    pub fn compress_part<Alloc: BrotliAlloc + Send + 'static, SliceW: SliceWrapper<u8>>(
+        hasher: UnionHasher<Alloc>,
+        thread_index: usize,
+        num_threads: usize,
+        input_and_params: &(SliceW, BrotliEncoderParams),
+        alloc: Alloc,
+    ) -> Result<(usize, <Alloc as Allocator<u8>>::AllocatedMemory), BrotliEncoderThreadError>
+    where
+        <Alloc as Allocator<u8>>::AllocatedMemory: Send + 'static,
+    {
+        let r = super::compress_part(hasher, thread_index, num_threads, input_and_params, alloc);
+        match r.compressed {
+            Ok(chunk) => Ok((chunk.data_size, chunk.data_backing)),
+            Err(e) => Err(e),
+        }
+    }
+}
+
 fn compress_part<Alloc: BrotliAlloc + Send + 'static, SliceW: SliceWrapper<u8>>(
     hasher: UnionHasher<Alloc>,
     thread_index: usize,
